@@ -353,6 +353,17 @@ def gen_cases(ctx, rng, n_pairs, n_unary, n_full, n_near):
             cases.append(Case(kk, A, B, family='disjoint-gc', label=lab))
             cases.append(Case(kk, B, A, family='disjoint-gc', label=lab + '/swap'))
         cases.append(Case('UU', A, family='disjoint-gc', label=lab))
+    # contacts on HOLE segments of a much larger operand (result envelope small: the clipping optimisation is active)
+    for i in range(max(6, n_pairs // 5)):
+        hc = L.hole_contact_pair(rng)
+        if hc is None: continue
+        A, B, lab = hc
+        if rng.random() < 0.25:
+            f = L.full_precision_map(rng); A, B = L.map_pts(A, f), L.map_pts(B, f); lab += '/full'
+        for kk in ('INT', 'UNI', 'DIF', 'SYM'):
+            cases.append(Case(kk, A, B, family='hole-contact', label=lab))
+        cases.append(Case('INT', B, A, family='hole-contact', label=lab + '/swap'))
+        cases.append(Case('DIF', B, A, family='hole-contact', label=lab + '/swap'))
     # unary calls
     for i in range(n_unary):
         k = rng.random()
@@ -601,7 +612,7 @@ def run(ctx):
     for c in cases[:4]:
         ctx.sample(json.dumps(c.describe())[:400])
     # self-check of the generator: the case split of the specification must have been exercised
-    need = {'call': ['INT', 'UNI', 'DIF', 'SYM', 'UU', 'UC', 'DSU', 'CU', 'CLIP'], 'family': ['grid', 'full', 'near', 'unary', 'clip', 'disjoint-gc']}
+    need = {'call': ['INT', 'UNI', 'DIF', 'SYM', 'UU', 'UC', 'DSU', 'CU', 'CLIP'], 'family': ['grid', 'full', 'near', 'unary', 'clip', 'disjoint-gc', 'hole-contact']}
     for k, vs in need.items():
         for v in vs:
             if dist[k].get(v, 0) == 0:
